@@ -376,7 +376,7 @@ def monitor (m : Mon) (ws : List String) (impl : String) : Mon × List String :=
         [s!"sig=C16.restart-lag before={m.log.next} after={n} flush={C16.flushInterval}"]
       ({ m with cap := cap, log := { log := [], next := n } }, fails)
     | none => (m, [])
-  | ["follower", _] => (if impl == "ok" then { m with fs := m.fs ++ [{}] } else m, [])
+  | ["follower", _] | ["follower", _, "plain"] => (if impl == "ok" then { m with fs := m.fs ++ [{}] } else m, [])
   | ["lrestart"] =>
     match natField impl "lnext" with
     | some n =>
